@@ -28,18 +28,18 @@ def describe():
 def units(tier, seed):
     q = tier == "quick"
     specs = [
-        {"sid": "basic", "family": "blocks", "size": 6 if q else 7, "donor": ("blocks", 4 if q else 6)},
-        {"sid": "basic", "family": "blocks2", "size": 6 if q else 8, "donor": ("blocks2", 4 if q else 6)},
+        {"sid": "basic", "family": "blocks", "size": 6 if q else 7, "donor": ("blocks", 4 if q else 5)},
+        {"sid": "basic", "family": "blocks2", "size": 6 if q else 7, "donor": ("blocks2", 4 if q else 5)},
         {"sid": "basic", "family": "inline_s", "size": 5 if q else 6, "donor": ("inline_s", 4 if q else 5)},
-        {"sid": "list", "family": "lists", "size": 12 if q else 16, "donor": ("lists", 10 if q else 12)},
+        {"sid": "list", "family": "lists", "size": 12 if q else 14, "donor": ("lists", 10 if q else 12)},
         {"sid": "list", "family": "astral", "size": 6 if q else 8, "donor": ("astral", 5 if q else 6)},
         {"sid": "iso", "family": "iso", "size": 8 if q else 10, "donor": ("iso", 7 if q else 8)},
-        {"sid": "table", "family": "table", "size": 12 if q else 18, "donor": ("table", 12 if q else 14)},
-        {"sid": "struct", "family": "struct", "size": 6 if q else 8, "donor": ("struct", 6 if q else 7)},
+        {"sid": "table", "family": "table", "size": 12 if q else 16, "donor": ("table", 12 if q else 14)},
+        {"sid": "struct", "family": "struct", "size": 6 if q else 7, "donor": ("struct", 6 if q else 7)},
         {"sid": "topmarks", "family": "topmarks", "size": 5 if q else 6, "donor": ("topmarks", 3 if q else 5)},
     ]
     extra = [
-        {"sid": "list", "family": "lists_q", "size": 10 if q else 14, "donor": ("lists_q", 8 if q else 10)},
+        {"sid": "list", "family": "lists_q", "size": 10 if q else 12, "donor": ("lists_q", 8 if q else 10)},
         {"sid": "strict_hb", "family": "strict", "size": 10 if q else 12, "donor": ("strict", 9 if q else 10)},
         {"sid": "title", "family": "title", "size": 10 if q else 14, "donor": ("title", 10 if q else 12)},
         {"sid": "fixed", "family": "fixed", "size": 10 if q else 16, "donor": ("fixed", 10 if q else 12)},
